@@ -9,9 +9,9 @@ cd $wt || exit 2
 git checkout -q -- . ; git clean -fdq -e out -e target
 git apply $out/demo.diff || { echo "demo.diff does not apply" | tee $log; exit 2; }
 {
-echo "== demo WITHOUT change"; cargo test --offline "$@" 2>&1 | grep -E "^test |test result|panicked" | head -20
+echo "== demo WITHOUT change"; touch src/lib.rs; cargo test --offline "$@" 2>&1 | grep -E "^test |test result|panicked" | head -20
 git apply $out/patch.diff || echo "PATCH DOES NOT APPLY"
-echo "== build with change"; cargo build --offline 2>&1 | tail -1
+echo "== build with change"; touch src/lib.rs; cargo build --offline 2>&1 | tail -1
 echo "== build with change + hooks"; cargo build --offline --features verif-hooks 2>&1 | tail -1
 echo "== lib tests WITH change"; cargo test --offline --lib 2>&1 | grep -E "test result|FAILED" | head
 echo "== demo WITH change"; cargo test --offline "$@" 2>&1 | grep -E "^test |test result|panicked" | head -20
